@@ -77,6 +77,11 @@ def build_cases(ctx, ncases, emax):
     return cases
 
 
+def OnsagerCalc_Interstitial(*a):
+    from onsager import OnsagerCalc
+    return OnsagerCalc.Interstitial(*a)
+
+
 def run(ctx):
     emax = 4 if ctx.quick else 12
     cases = build_cases(ctx, 60 if ctx.quick else 1500, emax)
@@ -139,6 +144,26 @@ def run(ctx):
                 ctx.violation('gf-raises:%s:%s' % (type(e).__name__, name), 'GFCrystalcalc.SetRates raised %r' % (e,), rep)
                 continue
             ctx.count('gf-compared')
+            if len(sl) > 1:
+                # the site list is an argument: the same Wyckoff sets listed in another order (data reordered with them)
+                perm = list(range(len(sl)))[::-1] if len(sl) == 2 else ctx.rng.sample(range(len(sl)), len(sl))
+                slp = [sl[k] for k in perm]
+                argsp = ([args[0][k] for k in perm], [args[1][k] for k in perm], args[2], args[3])
+                keyp = ('gfperm', name, tuple(perm))
+                try:
+                    if keyp not in ic._CACHE:
+                        ic._CACHE[keyp] = (GFcalc.GFCrystalcalc(crys, chem, slp, jn, Nmax=4), OnsagerCalc_Interstitial(crys, chem, slp, jn))
+                    gfp, dip = ic._CACHE[keyp]
+                    gfp.SetRates(*argsp)
+                    Dgfp = np.array(gfp.D); Dip = np.asarray(dip.diffusivity(*argsp))
+                except Exception as e:
+                    ctx.violation('sitelist-order-raises:%s:%s' % (type(e).__name__, name), 'calculator raised %r with the Wyckoff sets listed in the order %s' % (e, perm), rep)
+                else:
+                    ctx.count('sitelist-order-compared')
+                    for lab, Dx in (('GFCrystalcalc.D', Dgfp), ('Interstitial.diffusivity', Dip)):
+                        if not (np.abs(Dx - Dm).max() <= tol):
+                            ctx.violation('sitelist-order:%s:%s' % (lab.split('.')[0], name), '%s with the Wyckoff sets of the site list in the order %s (data reordered accordingly) differs from the '
+                                          'exact diffusivity by %.3g (tol %.3g)' % (lab, perm, np.abs(Dx - Dm).max(), tol), dict(rep, order=perm, D=Dx.tolist(), D_model=Dm.tolist()))
             egf = np.abs(Dgf - Dm).max()
             if not (egf <= tol):
                 ctx.violation('gf-D-mismatch:%s' % name, 'GFCrystalcalc.D differs from the exact diffusivity by %.3g (tol %.3g)' % (egf, tol),
